@@ -177,7 +177,17 @@ fn run_variable(rep: &mut Report, rate: f64, hzs: Rc<Vec<f64>>, label: &str, see
 
 fn run_variable_inner(rep: &mut Report, rate: f64, hzs: Rc<Vec<f64>>, label: &str, seed: u64) -> bool {
     let case = format!("kind=var;rate={:e};pattern={};seed={};frames={}", rate, label, seed, hzs.len());
-    let mk = |probe: &Rc<Probe>| signal::rate(rate).hz(USource::finite(hzs.clone(), probe.clone()));
+    // The frequency signal is the sum of two finite signals: the first carries hz[0..h] and then
+    // runs dry, the second carries zeros and then hz[h..]. From frame h on the sum reports
+    // is_exhausted() (a hint: one operand is spent) while its frames are still the non-zero
+    // frequencies - an oscillator has to keep pulling and stepping by what next() yields.
+    let h = hzs.len() / 2;
+    let head: Rc<Vec<f64>> = Rc::new(hzs[..h].to_vec());
+    let tail: Rc<Vec<f64>> = Rc::new(hzs.iter().enumerate().map(|(n, v)| if n < h { 0.0 } else { *v }).collect());
+    let mk = |probe: &Rc<Probe>| signal::rate(rate).hz(USource::finite(head.clone(), Probe::new()).add_amp(USource::finite(tail.clone(), probe.clone())));
+    if h > 0 && hzs[h..].iter().any(|v| *v != 0.0) {
+        rep.hit("frequency_signal_with_exhaustion_hint_still_non_zero");
+    }
     let probes: Vec<Rc<Probe>> = (0..5).map(|_| Probe::new()).collect();
     let mut phase = mk(&probes[0]).phase();
     let mut saw = mk(&probes[1]).saw();
@@ -329,6 +339,7 @@ fn main() {
     }
 
     rep.oblige("variable_hz_runs", 1);
+    rep.oblige("frequency_signal_with_exhaustion_hint_still_non_zero", 1);
     rep.oblige("simplex_cells_scanned", 1);
     rep.oblige("noise_seeds_near_u64_max", 1);
     rep.oblige("dyadic_exact_runs", 1);
